@@ -14,7 +14,7 @@ Next == /\ ~done /\ done' = TRUE /\ UNCHANGED tid
         /\ LET f == Files[tid]  b == f.bytes IN
            IF ~IsPE(b) THEN PrintT(ToJson([t |-> f.t, segs |-> <<>>, pc |-> "NotPE", fetch |-> "NotPE", entry |-> <<>>, nslots |-> 0]))
            ELSE LET R == Report(b)  S == ImportSlots(b) IN
-                PrintT(ToJson([t |-> f.t, segs |-> ImageVerdicts(Image(b), f.obs, f.exts, S, PW(R.plus)),
+                PrintT(ToJson([t |-> f.t, segs |-> ImageVerdicts(Image(b), f.obs, f.exts, S, PW(R.plus), AsIsImage(b), "TailPaddedWithSpaces"),
                                pc |-> IF f.pc = <<>> THEN "PcNotConstant" ELSE IF EqD(f.pc, R.entry) THEN "ok" ELSE "PcIsNotEntry",
                                fetch |-> IF f.fetch.bytes = <<>> \/ f.fetch.bytes = AtAddr(b, f.fetch.a, Len(f.fetch.bytes)) THEN "ok"
                                          ELSE "FetchedBytesDiffer",
